@@ -974,7 +974,8 @@ class Circuit(Function):
             else:
                 self._gate_to_users[gate_label].extend(list_users)
 
-        check_circuit_has_no_cycles(self)
+        # new gates may close a cycle outside of the cone of the outputs as well
+        check_circuit_has_no_cycles(self, list(self._gates))
 
         return self
 
